@@ -359,9 +359,13 @@ def s5_rest(run, project, mod, g):
     arg = g.args.args[0].arg
     run.ob("S5", src in (f"list(separate_events({arg}))", f"separate_events({arg})"), "messages come from separate_events, in order",
            f"events_to_objs iterates over `{src}`", module=mod, node=lp, func=g.name, construct="events_to_objs source")
-    init = pre[0].env.get("command_code")
-    state = "command_code"
-    run.ob("S5", init is not None and norm(init) == "None", "the first message is a command", "initial command_code is not None",
+    # the pairing state: the local the loop body decides on (`<state> is None`) and rebinds - whatever it is called
+    body0 = [p_ for t_ in top for p_ in t_.loops.get(id(lp), [])]
+    cands = sorted({a_[: -len(" is None")] for p_ in body0 for a_, _v, _ in p_.cond if a_.endswith(" is None")
+                    and a_[: -len(" is None")].isidentifier() and a_[: -len(" is None")] in pre[0].env})
+    state = cands[0] if len(cands) == 1 else "command_code"
+    init = pre[0].env.get(state)
+    run.ob("S5", init is not None and norm(init) == "None", "the first message is a command", f"initial {state} is not None",
            module=mod, node=g, func=g.name, construct="events_to_objs init")
     C = f"{state} is None"
     body = {repr(p_): p_ for t_ in top for p_ in t_.loops.get(id(lp), [])}
@@ -373,15 +377,15 @@ def s5_rest(run, project, mod, g):
         nxt = p_.env.get(state)
         nxt = None if nxt is None else paths.text(nxt)
         if t is None:
-            run.ob("S5", False, f"events_to_objs [{label}]", "objects no longer alternate command / response on `command_code is None`",
+            run.ob("S5", False, f"events_to_objs [{label}]", f"objects no longer alternate command / response on `{state} is None`",
                    module=mod, node=p_.node or lp, func=g.name, construct="events_to_objs alternation")
         elif t:
             cmd = f"events_to_obj({evv})"
             run.ob("S5", ys == [cmd] and nxt == f"{cmd}.commandCode", "a command's code is remembered for the next message",
-                   f"command branch yields {ys} and leaves command_code = {nxt}", module=mod, node=p_.node or lp, func=g.name,
+                   f"command branch yields {ys} and leaves {state} = {nxt}", module=mod, node=p_.node or lp, func=g.name,
                    construct="events_to_objs command branch")
         else:
             rsp = f"events_to_obj({evv}, command_code={state})"
             run.ob("S5", ys == [rsp] and nxt == "None", "the response is built with that code, which is then forgotten",
-                   f"response branch yields {ys} and leaves command_code = {nxt}", module=mod, node=p_.node or lp, func=g.name,
+                   f"response branch yields {ys} and leaves {state} = {nxt}", module=mod, node=p_.node or lp, func=g.name,
                    construct="events_to_objs response branch")
